@@ -167,6 +167,9 @@ func genParams(r rng, sc *Scenario, op *Op) {
 	case "SetPrec":
 		if r.chance(0.06) {
 			op.I = 0
+		} else if r.chance(0.03) {
+			// the ends of the precision range (values above MaxPrec are clamped)
+			op.I = []int64{math.MaxUint32, math.MaxUint32 - 18, math.MaxUint32 + 1, 1 << 31, 1 << 40}[r.intn(5)]
 		} else {
 			op.I = int64(r.genPrec(r.pick(1, 2, 5, 20), false))
 		}
